@@ -249,8 +249,7 @@ def run_c_functions(funcs, tier, jobs=None, opts=None):
         again = []
         for q, (w, r) in enumerate(zip(work, res)):
             if r.get("error_kind") == "timeout":
-                again.append(q)
-                continue
+                continue        # the generator itself did not return: a longer solver budget does not help
             if r.get("error"):
                 continue
             open_ = [o for o in r["obligations"] if o["status"] != "discharged"]
